@@ -48,4 +48,49 @@ def interp {nBase r q k : Nat} (idx : Fin r → Fin q → Fin nBase) (val : Fin 
     (x : Mat α k nBase) : Mat α k r :=
   fun s i => sumFin q fun c => val i c * x s (idx i c)
 
+/-- Contour-integral sampler (`settings.ciq_samples`): `(solves * weights).sum(0).squeeze(-1)`; `sol q` are the
+shifted solves of quadrature point `q` (already multiplied by `K`), samples-first `(k, n)`; `w q` its weight. -/
+def ciq {Q n k : Nat} (w : Fin Q → α) (sol : Fin Q → Mat α k n) : Mat α k n :=
+  fun s i => sumFin Q fun q => sol q s i * w q
+
+/-- `ConstantMulLinearOperator.root_decomposition`: the base root scaled by `√c`
+(`ConstantMulLinearOperator(base_root, c ** 0.5)`), drawn through the base-class sampler. -/
+def constMulRoot {n m : Nat} (sc : α) (R : Mat α n m) : Mat α n m := fun i j => R i j * sc
+
+/-- `KroneckerProductLinearOperator.root_decomposition`: Kronecker product of the factor roots, dense layout
+`(i₁·n₂ + i₂, j₁·m₂ + j₂)`. -/
+def kronFlat {n1 n2 m1 m2 : Nat} (A : Mat α n1 m1) (B : Mat α n2 m2) (h2 : 0 < n2) (hm2 : 0 < m2) :
+    Mat α (n1 * n2) (m1 * m2) :=
+  fun i j => A ⟨i.1 / n2, (Nat.div_lt_iff_lt_mul h2).2 i.2⟩ ⟨j.1 / m2, (Nat.div_lt_iff_lt_mul hm2).2 j.2⟩
+    * B ⟨i.1 % n2, Nat.mod_lt _ h2⟩ ⟨j.1 % m2, Nat.mod_lt _ hm2⟩
+
+/-! ### Shapes.  Torch broadcasting of batch shapes (right-aligned) and the shape arithmetic of the base-class
+sampler: `randn(*batch, m, k)`, `root.matmul(noise)`, `permute(-1, 0, …, d-2)`. -/
+
+/-- Broadcast of two reversed shapes. -/
+def bcastRev : List Nat → List Nat → Option (List Nat)
+  | [], l => some l
+  | a :: as, [] => some (a :: as)
+  | a :: as, b :: bs =>
+    if a = b ∨ b = 1 then (bcastRev as bs).map (a :: ·)
+    else if a = 1 then (bcastRev as bs).map (b :: ·) else none
+
+/-- `torch.broadcast_shapes`. -/
+def bcast (a b : List Nat) : Option (List Nat) := (bcastRev a.reverse b.reverse).map List.reverse
+
+/-- `t.permute(-1, 0, …, d-2)`: last dimension first. -/
+def lastFirst (l : List Nat) : List Nat :=
+  match l.reverse with
+  | [] => []
+  | x :: r => x :: r.reverse
+
+/-- Shape of `root.matmul(randn(*batch, m', k)).permute(-1, …)` for a root of shape `(*rb, n, m)`;
+`none` = torch raises (inner sizes differ or batch shapes do not broadcast). -/
+def genericShape (rb batch : List Nat) (n m m' k : Nat) : Option (List Nat) :=
+  if m = m' then (bcast rb batch).map fun b => lastFirst (b ++ [n, k]) else none
+
+/-- Shape of the block samplers' `_remove_batch_dim` applied to base draws `(k, *batch, nb, n)`. -/
+def blockShape (kind : Nat) (k : Nat) (batch : List Nat) (nb n : Nat) : List Nat :=
+  k :: batch ++ [if kind = 2 then n else nb * n]   -- 0 BlockDiag, 1 BlockInterleaved, 2 SumBatch
+
 end LinOp.C18
